@@ -1,6 +1,8 @@
 (* Props.C04 — header line grammar: parsing inverts formatting under any padding.
-   Statements only; the proofs are in Proofs/HeaderLineProofs.v (generic facts about which
-   split the backtracking matcher chooses: Proofs/RegexMatchFacts.v).  The vocabulary
+   Statements only; the proofs are in Proofs/HeaderLineProofs.v (layouts), HeaderLineFragments.v
+   (the patterns fragment by fragment through the matcher, pattern selection),
+   RegexMatchFacts.v (which split the backtracking stars choose), HeaderLineTotal.v and
+   HeaderLineName.v (the two universal theorems).  The vocabulary
    (blanks, stripped, conf_mnem, conf_unit, conf_text, layout, clock_colons, ...) is
    defined in Proofs/HeaderLineSpec.v from the property text.
 
@@ -184,8 +186,7 @@ Theorem C04_name_no_period : forall (line : list N) (is_curves is_param : bool) 
 Proof. exact name_no_period. Qed.
 
 (* ---- non-vacuity: concrete instances satisfying every hypothesis, and the model's result *)
-Definition ex_p0 := [32; 9]. Definition ex_p1 := [32]. Definition ex_p2 := [9; 32].
-Definition ex_p3 := [32; 32]. Definition ex_p4 := [32]. Definition ex_p5 := [9].
+(* paddings ex_p0 .. ex_p5 (blank/tab mixes) are defined in HeaderLineSpec.v *)
 
 Example C04_ex_main_hyps :
   padding6 ex_p0 ex_p1 ex_p2 ex_p3 ex_p4 ex_p5 = true /\ conf_mnem (s2l "SP GR") = true /\
